@@ -570,8 +570,34 @@ async def frontend_stage(loop, ctx):
         stream = (sent + "\r\n").encode("latin-1", "replace")
         if stream.decode("latin-1") != sent + "\r\n":
             continue
+        limit = 10 * 1024 * 1024
+        if rnd.random() < 0.3:
+            # the sentence follows a command the front end has to refuse for its size (limit lowered from the
+            # harness): the refusal must not change how the sentence after it is read
+            limit = max(len(stream) + rnd.choice([0, 1, 40]), 80)
+            head = b'p0 ID ("name"'
+            kind = rnd.choice(["text-after-last-literal", "text-after-last-literal", "literal-over", "sum-over", "sync-literal-over"])
+            if kind == "text-after-last-literal":
+                n = limit - rnd.choice([0, 0, 1, 3]) - len(head) - 2 - len(b" {%d+}" % limit)
+                pre = head + b" {%d+}\r\n" % n + b"v" * n + b' "version" "1.0")\r\n'
+            elif kind == "literal-over":
+                n = limit + rnd.choice([1, 2, 500])
+                pre = head + b" {%d+}\r\n" % n + b"v" * n + b")\r\n"
+            elif kind == "sum-over":
+                n = limit // 2 + 1
+                pre = head + b" {%d+}\r\n" % n + b"v" * n + b' "os" {%d+}\r\n' % n + b"w" * n + b")\r\n"
+            else:
+                pre = head + b" {%d}\r\n" % (limit + 1)
+            exp = c19.reference(pre + stream, limit)
+            if exp["commands"] == [stream[:-2]] and exp["bads"] == 1 and not exp["incomplete"]:
+                stream = pre + stream
+                cx["frontend_sentences_after_a_size_refusal"] += 1
+                cx["frontend_size_refusal:" + kind] += 1
+            else:
+                limit = 10 * 1024 * 1024
+                cx["frontend_size_refusal_preamble_not_usable"] += 1
         cuts = c19.cuts_for(rnd, stream, rnd.choice(["none", "single", "some"]))
-        sub, cli, err = await c19.run_frontend(stream, cuts, 10 * 1024 * 1024)
+        sub, cli, err = await c19.run_frontend(stream, cuts, limit)
         cx["frontend_sentences"] += 1
         if "{0}" in sent or "{0+}" in sent:
             cx["frontend_sentences_with_empty_literal"] += 1
